@@ -3,7 +3,7 @@
    `parse_svg_element` is a fold of a two-rule state machine over the declarations that mention `a`;
    the spelling theorems of C09 are corollaries. *)
 From Coq Require Import String Permutation.
-From RV Require Import Model.Base Gen.SvgTables Model.Cascade.
+From RV Require Import Model.Base Gen.SvgTables Gen.Units Model.Cascade.
 
 (* ---- decidable equality of the generated enumerations ---------------------------------------- *)
 Lemma AId_of_idx_idx a : AId_of_idx (AId_idx a) = Some a.
@@ -852,7 +852,7 @@ Local Close Scope string_scope.
 (* ---- font-size: explicit `inherit` re-resolves the copied *specified* value ---------------------- *)
 Local Open Scope Q_scope.
 Lemma fs_step_abs dpi a b v : fs_relative v = false -> fs_step dpi a v = fs_step dpi b v.
-Proof. destruct v as [n|u n|n|n|n]; simpl; try discriminate; intros _; [|destruct u]; reflexivity. Qed.
+Proof. destruct v as [u n]. destruct u; simpl; try discriminate; intros _; reflexivity. Qed.
 Lemma font_size_snoc dpi base l o :
   font_size dpi base (l ++ [o]) = match o with Some v => fs_step dpi (font_size dpi base l) v | None => font_size dpi base l end.
 Proof. unfold font_size. rewrite fold_left_app. simpl. reflexivity. Qed.
@@ -884,7 +884,7 @@ Theorem fs_inherit_refuted :
     ~ font_size dpi base (c1 ++ Some v :: repeat None k ++ [Some v])
       == font_size dpi base (c1 ++ Some v :: repeat None k ++ [None]).
 Proof.
-  exists 96, 12, [Some (FsPx 20)], (FsPct 150), O. split; [reflexivity|].
+  exists 96, 12, [Some (UPx, 20)], (UPercent, 150), O. split; [reflexivity|].
   intro H. vm_compute in H. discriminate.
 Qed.
 Local Close Scope Q_scope.
@@ -907,23 +907,32 @@ Proof.
   apply String.eqb_eq in H. congruence.
 Qed.
 
-(* ---- units ------------------------------------------------------------------------------------------ *)
+(* ---- units (convert_length arms of Gen/Units.v; font-size arms of Gen/SvgTables.v) ---------------- *)
 Local Open Scope Q_scope.
-Lemma unit_in n dpi : len_In n dpi == len_Px (n * dpi) dpi.
-Proof. unfold len_In, len_Px. reflexivity. Qed.
-Lemma unit_cm n dpi : len_Cm (n * (254 # 100)) dpi == len_In n dpi.
-Proof. unfold len_Cm, len_In. field. Qed.
-Lemma unit_mm n dpi : len_Mm (n * (254 # 10)) dpi == len_In n dpi.
-Proof. unfold len_Mm, len_In. field. Qed.
-Lemma unit_pt n dpi : len_Pt (n * 72) dpi == len_In n dpi.
-Proof. unfold len_Pt, len_In. field. Qed.
-Lemma unit_pc n dpi : len_Pc (n * 6) dpi == len_In n dpi.
-Proof. unfold len_Pc, len_In. field. Qed.
-Lemma unit_pt_pc n dpi : len_Pt (n * 12) dpi == len_Pc n dpi.
-Proof. unfold len_Pt, len_Pc. field. Qed.
-Lemma unit_mm_cm n dpi : len_Mm (n * 10) dpi == len_Cm n dpi.
-Proof. unfold len_Mm, len_Cm. field. Qed.
-Lemma unit_font_size_agrees n dpi :
-  fs_In n dpi == len_In n dpi /\ fs_Cm n dpi == len_Cm n dpi /\ fs_Mm n dpi == len_Mm n dpi /\
-  fs_Pt n dpi == len_Pt n dpi /\ fs_Pc n dpi == len_Pc n dpi.
-Proof. unfold fs_In, fs_Cm, fs_Mm, fs_Pt, fs_Pc, len_In, len_Cm, len_Mm, len_Pt, len_Pc. repeat split; reflexivity. Qed.
+Definition oq_eq (a b : option Q) : Prop :=
+  match a, b with Some x, Some y => x == y | _, _ => False end.
+(* equivalent absolute lengths: 1in = 2.54cm = 25.4mm = 72pt = 6pc = dpi px *)
+Lemma unit_equiv n dpi fs :
+  oq_eq (convert_abs UIn n dpi fs) (convert_abs UPx (n * dpi) dpi fs) /\
+  oq_eq (convert_abs UCm (n * (254 # 100)) dpi fs) (convert_abs UIn n dpi fs) /\
+  oq_eq (convert_abs UMm (n * (254 # 10)) dpi fs) (convert_abs UIn n dpi fs) /\
+  oq_eq (convert_abs UPt (n * 72) dpi fs) (convert_abs UIn n dpi fs) /\
+  oq_eq (convert_abs UPc (n * 6) dpi fs) (convert_abs UIn n dpi fs) /\
+  oq_eq (convert_abs UPt (n * 12) dpi fs) (convert_abs UPc n dpi fs) /\
+  oq_eq (convert_abs UMm (n * 10) dpi fs) (convert_abs UCm n dpi fs) /\
+  oq_eq (convert_abs UNone n dpi fs) (convert_abs UPx n dpi fs).
+Proof. unfold oq_eq; cbn. repeat split; try field; reflexivity. Qed.
+(* the font-size resolver uses the same factors as convert_length (two sites of the same table) *)
+Lemma unit_font_size_agrees u n dpi parent :
+  u <> UPercent -> oq_eq (convert_abs u n dpi parent) (Some (fs_step dpi parent (u, n))).
+Proof.
+  intro H. destruct u; try (exfalso; apply H; reflexivity); unfold oq_eq; cbn;
+    unfold fs_Px, fs_In, fs_Cm, fs_Mm, fs_Pt, fs_Pc, fs_Em, fs_Ex; reflexivity.
+Qed.
+Lemma unit_font_size_equiv n dpi parent :
+  fs_step dpi parent (UCm, n * (254 # 100)) == fs_step dpi parent (UIn, n) /\
+  fs_step dpi parent (UMm, n * (254 # 10)) == fs_step dpi parent (UIn, n) /\
+  fs_step dpi parent (UPt, n * 72) == fs_step dpi parent (UIn, n) /\
+  fs_step dpi parent (UPc, n * 6) == fs_step dpi parent (UIn, n) /\
+  fs_step dpi parent (UIn, n) == fs_step dpi parent (UPx, n * dpi).
+Proof. unfold fs_step; cbn; unfold fs_Px, fs_In, fs_Cm, fs_Mm, fs_Pt, fs_Pc. repeat split; try field; reflexivity. Qed.
